@@ -556,7 +556,8 @@ func verifMakeSFO(keys, vals []string, order []int) []byte {
 	}
 	dataStart := keyStart + len(keyTab)
 	put32 := func(b []byte, v int) { b[0], b[1], b[2], b[3] = byte(v), byte(v>>8), byte(v>>16), byte(v>>24) }
-	out := make([]byte, dataStart+16*n)
+	const slot = 48 // bytes per value in the data table
+	out := make([]byte, dataStart+slot*n)
 	copy(out, []byte{0, 'P', 'S', 'F', 1, 1, 0, 0})
 	put32(out[8:], keyStart)
 	put32(out[12:], dataStart)
@@ -567,9 +568,9 @@ func verifMakeSFO(keys, vals []string, order []int) []byte {
 		e[0], e[1] = byte(keyOff[i]), byte(keyOff[i]>>8)
 		e[2], e[3] = 4, 2
 		put32(e[4:], len(vals[i])+1)
-		put32(e[8:], 16)
-		put32(e[12:], 16*i)
-		copy(out[dataStart+16*i:], vals[i])
+		put32(e[8:], slot)
+		put32(e[12:], slot*i)
+		copy(out[dataStart+slot*i:], vals[i])
 	}
 	return out
 }
